@@ -5,9 +5,13 @@ x an addon policy per (flow, hook) from {pass, kill, set response, enable stream
 deliveries} x a fault plan: client/server close (half or full) injected before the k-th delivered segment, connect
 failures, server responses delayed so that client data arrives while a response is outstanding.  The thorough tier
 enumerates *every* delivery index of each base exchange as the fault position for each fault kind.
+A second generator (lib/h2life.py) drives HTTP/2 and HTTP/3 clients: 1-3 multiplexed tagged streams against an h2, h3 or
+scripted HTTP/1 upstream, with the same policies, early/unfinished/reset responses, client stream resets, connection
+closes and GOAWAY at generated steps; the same clauses are judged per flow.
 Oracle: invariants over the per-flow hook trace + the terminal clause after all connections are closed and all held
 completions are drained (exactly one of response/error, flow.live is False).
 """
+import h2life
 import http1gen
 import runner
 from http1run import run_http1
@@ -17,18 +21,21 @@ import c02
 
 PID = "C03"
 LEVEL = "fault_enumeration"
-TECHNIQUE = "fault injection at enumerated positions of generated HTTP/1 exchanges + addon-policy generation; trace invariants over hook histories"
+TECHNIQUE = ("fault injection at enumerated positions of generated HTTP/1 exchanges and at generated steps of multiplexed HTTP/2 / HTTP/3 "
+             "schedules + addon-policy generation; trace invariants over hook histories")
 RULE = ("C01 grammar x addon policy x fault plan (kind x delivery index; thorough: all indices of each base exchange); "
         "non-trivial = a fault landed after the first requestheaders and before the flow's terminal hook, or a non-pass "
         "policy was applied; distinct by (fault kind, hooks fired before the fault, policy vector, message classes)")
 ASSUMPTIONS = ["the driver echoes ConnectionClosed after a commanded full close, as ConnectionHandler.handle_connection does",
                "CONNECT tunnels and protocol upgrades are not generated (the property excludes them)",
-               "HTTP/1 client side; HTTP/2 lifecycles are exercised by C05/C11"]
+               "HTTP/2 and HTTP/3 client scenarios (lib/h2life.py) exclude what recorded findings of C01/C06 already crash on: trailers "
+               "on an HTTP/1 leg and interim 1xx responses from an HTTP/1 server"]
 LEVEL_TEXT = ("fault positions are enumerated exhaustively per base exchange in the thorough tier (sampled in quick); "
               "the base exchanges and policies are sampled; invariants are checked on every resulting history")
 LEVEL_NOTE = "trusts the sans-io driver; hooks complete in FIFO order unless held by the generated policy"
 QUICK_N = 30_000
 THOROUGH_N = 600_000
+QUICK_H2, THOROUGH_H2 = 8_000, 300_000
 
 ACTIONS = ["kill", "resp", "stream", "hold", "hold"]
 HOOKS = ["requestheaders", "request", "responseheaders", "response"]
@@ -69,9 +76,8 @@ def build(rnd):
 
 
 def check_case(case, ctx):
-    if (case.get("opts") or {}).get("stream_large_bodies"):
-        # documented limitation (NotImplementedError "Can't set a response and enable streaming at the same time")
-        case["policy"] = [p for p in case.get("policy") or [] if not (p[2] == "resp" and p[1] == "requestheaders")]
+    if case.get("h2"):
+        return check_h2(case, ctx)
     o = run_http1(case)
     if o.crashed is not None:
         ctx.crash(o.crashed, "layer-crash")
@@ -91,34 +97,63 @@ def check_case(case, ctx):
     for p in pol:
         ctx.cls("policy=%s@%s" % (p[1], p[0]))
     for i, r in enumerate(o.flows):
-        h = r.hooks
-        ctx.cls("outcome=" + ("response" if "response" in h else "error" if "error" in h else "none"))
-        if not h or h[0] != "requestheaders":
-            ctx.fail("first-hook-not-requestheaders", "flow %d hooks %r" % (i, h))
-            continue
-        for name in HOOKS + ["error"]:
-            if h.count(name) > 1:
-                ctx.fail("hook-twice:%s" % name, "flow %d hooks %r" % (i, h))
-        if "response" in h and "error" in h:
-            ctx.fail("both-response-and-error:%s-first" % ("error" if h.index("error") < h.index("response") else "response"),
-                     "flow %d hooks %r" % (i, h))
-        if "response" in h and "responseheaders" not in h:
-            # a response set by an addon still gets an emulated responseheaders hook
-            ctx.fail("response-without-responseheaders", "flow %d hooks %r" % (i, h))
-        if "response" in h and "responseheaders" in h and h.index("responseheaders") > h.index("response"):
-            ctx.fail("responseheaders-after-response", "flow %d hooks %r" % (i, h))
-        if "request" in h and "responseheaders" in h and i not in streamed_req:
-            if h.index("request") > h.index("responseheaders"):
-                ctx.fail("request-after-responseheaders-unstreamed", "flow %d hooks %r" % (i, h))
-        # terminal clause
-        n_out = ("response" in h) + ("error" in h)
-        if n_out == 0:
-            ctx.fail("no-outcome:last=%s" % h[-1], "flow %d fired %r and never response/error after all connections closed" % (i, h))
-        if r.flow.live:
-            ctx.fail("still-live:last=%s" % h[-1], "flow %d hooks %r: flow.live is still True at the end" % (i, h))
+        judge(ctx, i, r.hooks, r.flow, i in streamed_req, "")
+
+
+def judge(ctx, i, h, flow, streamed, pre):
+    """the lifecycle clauses for one flow: h = hook names in firing order, after everything has closed"""
+    ctx.cls(pre + "outcome=" + ("response" if "response" in h else "error" if "error" in h else "none"))
+    if not h or h[0] != "requestheaders":
+        ctx.fail(pre + "first-hook-not-requestheaders", "flow %d hooks %r" % (i, h))
+        return
+    for name in HOOKS + ["error"]:
+        if h.count(name) > 1:
+            ctx.fail(pre + "hook-twice:%s" % name, "flow %d hooks %r" % (i, h))
+    if "response" in h and "error" in h:
+        ctx.fail(pre + "both-response-and-error:%s-first" % ("error" if h.index("error") < h.index("response") else "response"),
+                 "flow %d hooks %r" % (i, h))
+    if "response" in h and "responseheaders" not in h:
+        # a response set by an addon still gets an emulated responseheaders hook
+        ctx.fail(pre + "response-without-responseheaders", "flow %d hooks %r" % (i, h))
+    if "response" in h and "responseheaders" in h and h.index("responseheaders") > h.index("response"):
+        ctx.fail(pre + "responseheaders-after-response", "flow %d hooks %r" % (i, h))
+    if "request" in h and "responseheaders" in h and not streamed:
+        if h.index("request") > h.index("responseheaders"):
+            ctx.fail(pre + "request-after-responseheaders-unstreamed", "flow %d hooks %r" % (i, h))
+    # terminal clause
+    n_out = ("response" in h) + ("error" in h)
+    if n_out == 0:
+        ctx.fail(pre + "no-outcome:last=%s" % h[-1], "flow %d fired %r and never response/error after all connections closed" % (i, h))
+    if flow.live:
+        ctx.fail(pre + "still-live:last=%s" % h[-1], "flow %d hooks %r: flow.live is still True at the end" % (i, h))
+
+
+def check_h2(case, ctx):
+    """HTTP/2 and HTTP/3 clients: same clauses, multiplexed streams, stream resets and GOAWAY as additional faults"""
+    import copy
+    case = h2life.normalise(copy.deepcopy(case))
+    o = h2life.run(case)
+    pair = "%s-%s:" % (case["client"], case["server"])
+    if o.crashed is not None:
+        ctx.crash(o.crashed, pair + "layer-crash")
+        return
+    fault = case.get("fault")
+    pol = tuple(sorted((p[1], p[2]) for p in case["policy"]))
+    hooks_at = tuple(tuple(r.hooks) for r in o.flows)
+    ends = tuple(s["end"] for s in case["streams"]) + tuple(r["end"] for r in case["resp"])
+    if o.flows and (pol or fault or case.get("connect_fail") or "reset" in ends or "never" in ends or len(case["streams"]) > 1):
+        ctx.nt((pair, fault["kind"] if fault else None, fault["at"] if fault else None, pol, hooks_at, ends),
+               pair + "fault=%s" % (fault["kind"] if fault else "none"))
+    for p in pol:
+        ctx.cls(pair + "policy=%s@%s" % (p[1], p[0]))
+    stream_all = bool(case["opts"].get("stream_large_bodies"))
+    for i, r in enumerate(o.flows):
+        streamed = stream_all or any(p[0] == r.tag and p[2] == "stream" and p[1] == "requestheaders" for p in case["policy"])
+        judge(ctx, i, r.hooks, r.flow, streamed, pair)
 
 
 def run(ctx):
+    runner.fast(ctx, h2life.build, check_case, ctx.n(QUICK_H2, THOROUGH_H2), rnd_class=http1gen.R)
     runner.fast(ctx, build, check_case, ctx.n(QUICK_N, THOROUGH_N), rnd_class=http1gen.R)
     # fault-position enumeration: every delivery index x every fault kind for sampled base exchanges
     nbase = ctx.n(400, 12_000)
